@@ -247,7 +247,34 @@ func runC05(p *core.Prog, r *core.Report) {
 			ctorVal := ctorFieldValue(ctor, cf)
 			for _, rv := range resetVals {
 				if _, isSl := rv.(*ssa.Slice); !isSl {
-					if _, isC := rv.(*ssa.Const); !isC || okPre {
+					if _, isC := rv.(*ssa.Const); !isC {
+						// a reset that installs a value loaded from another object: it must not be a snapshot of mutable configuration
+						if !okPre {
+							for o := range sx.Origins(rv) {
+								if !strings.HasPrefix(o, "field:") {
+									continue
+								}
+								parts := strings.SplitN(strings.TrimPrefix(o, "field:"), ".", 2)
+								if owner := p.Named("httpd", parts[0]); owner != nil && len(parts) == 2 {
+									if f := fieldByName(owner, parts[1]); f != nil {
+										var later []string
+										for _, ref := range sx.FieldRefs(allFns, f) {
+											if fa, ok := ref.Instr.(*ssa.FieldAddr); ok && !sx.IsFreshObject(ref.Base) {
+												for _, a := range sx.Accesses(fa) {
+													if a.Kind == "write" && ref.Fn != serve && rootFn(ref.Fn).Name() != "NewMux" {
+														later = append(later, fnName(ref.Fn))
+													}
+												}
+											}
+										}
+										r.Check(len(later) == 0, "C05-R2", c+": reset value is not a snapshot of mutable configuration", p.FuncPos(serve), "reset from "+o+", which never changes after construction", "the reset parks the current value of "+o+" in the pooled Store, but "+strings.Join(uniq(later), ", ")+" can replace it later: a recycled Store then serves the old value once")
+									}
+								}
+							}
+						}
+						continue
+					}
+					if okPre {
 						continue // assigned from request data: nothing to compare with the constructor
 					}
 				}
@@ -290,6 +317,21 @@ func runC05(p *core.Prog, r *core.Report) {
 					}
 				}
 			}
+		}
+	}
+
+	// no decision may depend on the capacity of the pooled value slice
+	if params != nil {
+		for fn := range reachableFrom(p, serve) {
+			sx.Instrs(fn, func(in ssa.Instruction) {
+				if c, ok := in.(*ssa.Call); ok && isBuiltin(c, "cap") {
+					for o := range sx.Origins(c.Call.Args[0]) {
+						if strings.HasPrefix(o, "field:Params.") {
+							r.Fail("C05-R4", "cap("+o+") consulted in "+fnName(fn), p.Pos(in.Pos()), "behaviour depends on the capacity the pooled slice got when its Store was created (maxParams at that time): a Store created before a later Handle() behaves differently from a fresh one")
+						}
+					}
+				}
+			})
 		}
 	}
 
